@@ -56,6 +56,11 @@ def session_bytes(rng, kind):
         M({"jsonrpc": "2.0", "method": "textDocument/didOpen", "params": {"textDocument": {"uri": uri + "4", "languageId": "spl", "version": 0, "text": big}}}, size=9999)
         M({"jsonrpc": "2.0", "method": "textDocument/didOpen", "params": {"textDocument": {"uri": uri + "5", "languageId": "spl", "version": 0, "text": big * 9}}}, size=99999)
     M({"jsonrpc": "2.0", "method": "textDocument/didChange", "params": {"textDocument": {"uri": uri, "version": 1}, "contentChanges": [{"range": {"start": {"line": 0, "character": 0}, "end": {"line": 0, "character": 0}}, "text": "// neu ü😀\n"}]}})
+    if kind == "storm":
+        # 150 notifications without a request in between: more than any queue of the server holds; in one write they arrive faster
+        # than they can be processed, message by message they do not - the decoded sequence and the answers have to be the same
+        for v in range(2, 152):
+            M({"jsonrpc": "2.0", "method": "textDocument/didChange", "params": {"textDocument": {"uri": uri, "version": v}, "contentChanges": [{"range": {"start": {"line": 0, "character": 0}, "end": {"line": 0, "character": 0}}, "text": "// storm %d é\n" % v}]}})
     M({"jsonrpc": "2.0", "id": 4, "method": "textDocument/formatting", "params": {"textDocument": {"uri": uri}, "options": {"tabSize": 2, "insertSpaces": True}}})
     M({"jsonrpc": "2.0", "id": 5, "method": "$/verif/text", "params": {"uri": uri}})
     M({"jsonrpc": "2.0", "id": 6, "method": "shutdown"})
@@ -291,6 +296,7 @@ def run(ctx):
     for p in pmap(worker, jobs): ctx.merge(p)
     jobs = []
     for kind in ("ascii", "unicode", "sizes", "headers"): jobs += [(kind, i, 4, "k-way", ctx.seed, 8 if ctx.quick else 150) for i in range(4)]
+    jobs += [("storm", i, 4, "k-way", ctx.seed, 3 if ctx.quick else 40) for i in range(4)]
     for p in pmap(worker, jobs): ctx.merge(p)
     for p in pmap(worker_waiting, [(i, 12 if ctx.quick else 400, ctx.seed) for i in range(NCPU)]): ctx.merge(p)
     check_huge(ctx, binpath)
